@@ -64,10 +64,14 @@ func (n *node[T, N]) remove(obj N) bool {
 		n.contents = n.contents[:len(n.contents)-1]
 		return true
 	}
-	if !n.isLeaf() && n.rect.Contains(obj.Bounds()) {
+	if !n.isLeaf() {
+		// Follow the same route insert() took: the first child whose rect contains the object. Whether this node's own rect
+		// contains it must not be consulted here, since insert() doesn't either, and with fractional coordinates the rect a
+		// node was given (e.g. the union computed by Reorganize) may fall short of a child's rect by a rounding error.
+		rect := obj.Bounds()
 		for _, child := range n.children {
-			if child.remove(obj) {
-				return true
+			if child.rect.Contains(rect) {
+				return child.remove(obj)
 			}
 		}
 	}
